@@ -6,6 +6,7 @@ from . import filtlib as FL
 
 ID = "C09"
 CHECKER = "chk_filter"
+THEOREMS = ['C09_variant_normal_form', 'C09_variant_is_conversion_of_core', 'C09_variant_is_conversion_of_core_nonneg_r', 'C09_variants_agree', 'C09_no_variant_drops_uncertainty', 'C09_no_variant_drops_uncertainty_nonneg_r', 'C09_no_variant_drops_uncertainty_factors']
 RULE = ("the same physical (g, Q[S-1]) data and uncertainties fed to all 12 variants (exhaustive over variants per sampled dataset); outputs "
         "converted back to (g, Q[S-1]) must coincide with g_using_F; correspondence compares the uncertainty outputs of every variant; "
         "non-trivial = some input uncertainty non-zero; distinct by input hash")
